@@ -688,6 +688,28 @@ fn cmd_roundtrip(args: &[String]) {
                 cyc += 1;
             }
         }
+        // all 400 error codes, in ERROR-CODE and (alternating families) ADDRESS-ERROR-CODE
+        for code in 300u64..=699 {
+            let mut txid = [0u8; 12];
+            rng.fill(&mut txid);
+            let reason = format!("reason {}", code);
+            emit(1, 3, txid, &[("ErrorCode".to_string(), json!({"code": code, "reason": bytes_json(reason.as_bytes())}))],
+                 TAILS[(code as usize) % TAILS.len()], (code as usize) % keys.len(), &mut count);
+            emit(3, 3, txid, &[("AddressErrorCode".to_string(),
+                 json!({"fam": if code % 2 == 0 { 4 } else { 6 }, "code": code, "reason": bytes_json(reason.as_bytes())}))],
+                 &[], 0, &mut count);
+        }
+        // every transaction-id byte on its own in the XOR of an IPv6 address (and the cookie for IPv4)
+        for i in 0..12usize {
+            for fill in [0xFFu8, 0x01] {
+                let mut txid = [0u8; 12];
+                txid[i] = fill;
+                for kind in ["XorMappedAddress", "XorPeerAddress", "XorRelayedAddress"] {
+                    emit(1, 2, txid, &[(kind.to_string(), json!({"fam": 6, "port": 0, "ip": bytes_json(&[0u8; 16])}))], &[], 0, &mut count);
+                }
+                emit(1, 2, txid, &[("XorMappedAddress".to_string(), json!({"fam": 4, "port": 65535, "ip": bytes_json(&[255u8; 4])}))], &[], 0, &mut count);
+            }
+        }
         // bodies at the upper end of the 16-bit length field with every tail: the integrity /
         // fingerprint attributes then start at offsets around 65,536
         for target in [65_532usize, 65_528, 65_524, 65_496] {
@@ -1015,6 +1037,45 @@ fn cmd_faults(args: &[String]) {
                 if let Some(p) = obs::parse(&bytes) {
                     if let Some(a) = p.attrs.iter().find(|a| a.t == t) {
                         let base = a.off + 4;
+                        // forged MACs that a lossy comparison would take for the right one: the same
+                        // hexadecimal digits when bytes are printed without a leading zero (one digit
+                        // moved between neighbouring bytes), and the same bytes in reversed or rotated order
+                        {
+                            let mac = a.value.clone();
+                            let mut forged: Vec<Vec<u8>> = Vec::new();
+                            for i in 0..mac.len().saturating_sub(1) {
+                                let (x, y) = (mac[i], mac[i + 1]);
+                                let mut m = mac.clone();
+                                if x < 0x10 && y >= 0x10 {
+                                    m[i] = (x << 4) | (y >> 4);
+                                    m[i + 1] = y & 0x0f;
+                                    forged.push(m);
+                                } else if x >= 0x10 && y < 0x10 {
+                                    m[i] = x >> 4;
+                                    m[i + 1] = ((x & 0x0f) << 4) | y;
+                                    forged.push(m);
+                                }
+                            }
+                            let mut r = mac.clone();
+                            r.reverse();
+                            forged.push(r);
+                            let mut r = mac.clone();
+                            r.rotate_left(1);
+                            forged.push(r);
+                            forged.retain(|m| *m != mac);
+                            let mut acc = Vec::new();
+                            let mut panicked = false;
+                            for m in &forged {
+                                let mut alt = bytes.clone();
+                                alt[base..base + m.len()].copy_from_slice(m);
+                                let (ok, pn) = accepted(&alt, t, &key.lib);
+                                acc.push(ok);
+                                panicked |= pn;
+                            }
+                            writeln!(f, "{}", json!({"op":"flt","attr":tname,"pos":base + 1,"acc":acc,"sub":[],
+                                                     "panic":panicked,"double":true,"forged":true})).unwrap();
+                            count += 1;
+                        }
                         let nbits = a.value.len() * 8;
                         let stride = if nbits > 160 { 3 } else { 1 }; // SHA-256: every third first bit
                         for i in (0..nbits).step_by(stride) {
@@ -1159,13 +1220,14 @@ fn fuzz_record(bytes: &[u8]) -> Value {
     for o in 0..N_OPTS {
         let dec = codec::decoder_for(o, &key);
         match catch_unwind(AssertUnwindSafe(|| dec.decode(bytes))) {
-            Err(_) => res.push(json!({"ok":false,"size":-1,"panic":true})),
-            Ok(Err(_)) => res.push(json!({"ok":false,"size":-1,"panic":false})),
+            Err(_) => res.push(json!({"ok":false,"size":-1,"panic":true,"types":[]})),
+            Ok(Err(_)) => res.push(json!({"ok":false,"size":-1,"panic":false,"types":[]})),
             Ok(Ok((m, size))) => {
                 if o == 0 {
                     first = Some((Value::Array(m.attributes().iter().map(zoo::project).collect()), size));
                 }
-                res.push(json!({"ok":true,"size":size,"panic":false}));
+                let types: Vec<u64> = m.attributes().iter().map(|a| a.attribute_type().as_u16() as u64).collect();
+                res.push(json!({"ok":true,"size":size,"panic":false,"types":types}));
             }
         }
     }
@@ -1272,6 +1334,14 @@ fn cmd_fuzz(args: &[String]) {
                 }
             }
         }
+    }
+    // large messages (up to the 64 KiB a STUN message can be) join the corpus that is mutated
+    {
+        let id = [5u8; 12];
+        corpus.push(obs::build(1, 2, &id, &[Item::Raw(zoo::type_code("Padding"), vec![b'p'; 64000]), Item::Fp(false)]));
+        corpus.push(obs::build(1, 1, &id, &(0..2000).map(|i| Item::Raw(obs::T_SOFTWARE, format!("s{}", i % 7).into_bytes())).collect::<Vec<Item>>()));
+        corpus.push(obs::build(3, 2, &id, &[Item::Raw(zoo::type_code("Data"), (0..65480usize).map(|i| i as u8).collect()),
+                                            Item::Mi(keys[0].raw.clone(), false), Item::Fp(false)]));
     }
     for i in 0..n {
         let bytes = match i % 10 {
